@@ -79,7 +79,7 @@ type Finding struct {
 
 // Stats is what the checker measured on a log (for the evidence file).
 type Stats struct {
-	Marks, GcRunning, GcCtxExit, GcClose              int
+	Marks, GcRunning, GcCtxExit, GcClose               int
 	RelRunning, RelCtxExit, RelClose                   int
 	Resurrect, Refinalised, Remarks                    int
 	Exits                                              map[string]int // "<iso|shared>-<status>"
